@@ -545,7 +545,12 @@ def run_manager(spec):
         a = rng.choice(acts)
         if a == "next":
             before = snapshot_manager(mgr)
-            b, sl = mgr.next_job()
+            try:
+                b, sl = mgr.next_job()
+            except Exception as e:  # noqa: a request for work never fails
+                lines.append(({"op": "next_job"}, {"err": errname(e)}))
+                events.append({"ev": "next_job-error", "err": errname(e), "msg": str(e)[:200], "exc": type(e).__name__, "before": before})
+                break
             out = {"bracket": int(b), "slot": [int(sl.rung_index), int(sl.level), int(sl.slot_index), tid_json(sl.trial_id)]}
             out.update(wire(snapshot_manager(mgr), before["primary"]))
             lines.append(({"op": "next_job"}, out))
@@ -753,6 +758,8 @@ def monitor_c05(trace):
         # no call raises (except the assertion against a training script skipping its rung level)
         if ev["ev"] == "suggest-error" and not ev.get("reused_id"):
             add("c05:suggest-raises", f"suggest raised {ev.get('err')}: {ev.get('msg')}", ev)
+        if ev["ev"] == "next_job-error":
+            add("c05:next-job-raises", f"bracket manager: next_job raised {ev.get('exc')}: {ev.get('msg')} (a request for work never blocks or fails)", ev)
         if ev["ev"] == "result-error" and not ev.get("skipped_level"):
             add("c05:result-raises", f"on_trial_result raised {ev.get('err')}: {ev.get('msg')}", ev)
         if ev["ev"] == "on_result-error" and ev.get("legal"):
